@@ -84,6 +84,16 @@ CHECKS = {
             "Seeded search over input images: 70 % simulated multi-ECU/multi-boot DLT traces with every message kind (structured control responses of all known services truncated at every length, file-transfer announcements with extreme sizes, plugin-shaped traces, arbitrary type-info words) under 0-3 field-targeted corruptions located by ground truth, 20 % grammar-generated ASC/logcat/generic-log lines, 10 % repository example files, plus blind flips/truncation/splices; read under scripted short reads and pushed through iterate -> text -> re-serialise -> statistics -> lifecycles -> listing -> sort -> filters -> all built-in plugins. Violations: panic (overflow checks on), abort/signal of the worker process, step-bound overrun, single allocation > max(64 x input + 16 MiB) not among the implementation's constant reservations. Sampling, not proof.",
             "Only crashes count; BLF is not part of the statement; constant reservations (10 M message queue, 1 Mi heap) are learned per worker on a benign input and whitelisted by exact size.",
             "DESIGN.md §6 C03"),
+    "C14": ("pipesim", "exploration",
+            "deterministic simulation: the real convert() (threads, bounded channels, file readers) inside shuttle executions on simulated input files; metamorphic + reference-predicate oracle",
+            "Seeded search over option combinations (-b/-e, --lcs, --eac with literal/regex expressions, -f in DLF and dlt-convert format incl. negative/disabled filters, --sort, -a/-x/-s/none, -o) x 1-3 generated input files (chunks of one recording or one file per ECU, garbage between messages) x permutations of the file arguments x schedules with small channel bounds. Each case runs the real convert() 3-4 times (baseline, listing, selection, permuted selection); expected selection = index window AND lifecycle set AND filter rule using an abstract reference predicate; each selected message exactly once on screen and in the re-read -o file. Sampling, not proof.",
+            "Lifecycle membership from an independent library pass aligned with the run through the aligned id counter and cross-checked with the run's listing; with --sort only the multiset; the permutation part only when all reception times are distinct.",
+            "DESIGN.md §6 C14"),
+    "C15": ("remotesim", "exploration",
+            "deterministic simulation: real remote server functions behind a loop replica under a simulated websocket client, in-memory transport, simulated clock and seeded shuttle schedules; session reference model",
+            "Seeded search over command histories (1-26 commands from a grammar over all twelve commands with valid bodies, each parameter missing, wrong types, malformed JSON, unknown/stale/garbage ids, before open/after close, double open, client waits) x parsing progress (channel bounds, clock tick, short socket reads, schedules). Oracle: exactly one well-formed reply per command naming that command, none unsolicited, ok/err exactly as the session model predicts (open/closed, collect mode, live stream and query ids incl. self-terminating queries judged on frame order), close always answered and a following open succeeds, server loop alive until the client closes. Sampling, not proof.",
+            "TCP accept/event loop is the H2 replica; plain files only (archive extraction thread not simulated); liveness = reply within 30000 client polls.",
+            "DESIGN.md §6 C15"),
 }
 
 NOT_APPLICABLE = {
